@@ -100,6 +100,20 @@ let rec parse_nops toks = match toks with
   | "xnext" :: s :: d :: r -> NNext (nat s, nat d) :: parse_nops r
   | t :: _ -> failwith ("bad node op " ^ t)
 
+(* family p: deferrable reply context (coq/C15/ReplyModel.v); detached-reply slots are written 9..11 *)
+let dsl s = nat_of_int (int_of_string s - 9)
+let rec parse_pops toks = match toks with
+  | [] -> []
+  | "pnew" :: d :: m :: r -> PNew (nat d, n_of_hex m) :: parse_pops r
+  | "pset" :: s :: l :: i :: r -> PSet (nat s, n_of_hex l, n_of_hex i) :: parse_pops r
+  | "pdefer" :: s :: d :: r -> PDefer (nat s, dsl d) :: parse_pops r
+  | "psend" :: s :: m :: r -> PSend (nat s, m <> "0") :: parse_pops r
+  | "preply" :: d :: m :: r -> PReply (dsl d, m <> "0") :: parse_pops r
+  | "paddref" :: s :: d :: r -> PAddref (nat s, nat d) :: parse_pops r
+  | "punref" :: s :: r -> PUnref (nat s) :: parse_pops r
+  | "pfail" :: b :: r -> PFail (b <> "0") :: parse_pops r
+  | t :: _ -> failwith ("bad reply op " ^ t)
+
 let rec parse_cops toks = match toks with
   | [] -> []
   | "set" :: v :: r -> CSet (n_of_hex v) :: parse_cops r
@@ -132,6 +146,28 @@ let show_obs with_ev o = match o with
     show_out t ^ "|" ^ dash (String.concat "," (List.map show_disp d)) ^ "|" ^ show_slots h
     ^ (if with_ev then "|" ^ dash (String.concat "" (List.map show_ev e)) else "")
 
+(* family p token: <out>[;s<ctx>:<len>:<id>[m]]*|<contexts>|<slots>|-
+     out       X not performed, D done, E refused (null / BadValue), R<hex> result >= 0, N<hex> result -<hex>
+     send      one per call of the send callback: context id, id length, id, m = with a message
+     contexts  x destroyed | <hex count>.<e target set|d target cleared>.<len>:<id> | ... .-  (nothing pending)
+     slots     i:o metatype slot, i:o/<len>:<id> detached reply (context it refers to, the id it answers) *)
+let show_pres r = match r with
+  | PX -> "X" | PD -> "D" | PE -> "E" | PR n -> "R" ^ hex_of_n n | PNeg n -> "N" ^ hex_of_n n
+let show_pend p = match p with None -> "-" | Some (l, i) -> hex_of_n l ^ ":" ^ hex_of_n i
+let show_send e = Printf.sprintf ";s%d:%s:%s%s" (int_of_nat e.sv_obj) (hex_of_n e.sv_len) (hex_of_n e.sv_id) (if e.sv_msg then "m" else "")
+let show_pdisp d = match d with
+  | PDead -> "x"
+  | PLive (c, snd, p) -> hex_of_n c ^ "." ^ (if snd then "e" else "d") ^ "." ^ show_pend p
+let show_pobs o = match o with
+  | PObsFault -> "F"
+  | PObs (r, e, d, m, h) ->
+    let ms = List.concat (List.mapi (fun i v -> match v with
+      | Some o -> [Printf.sprintf "%d:%d" i (int_of_nat o)] | None -> []) m) in
+    let hs = List.concat (List.mapi (fun i v -> match v with
+      | Some (o, p) -> [Printf.sprintf "%d:%d/%s" (i + 9) (int_of_nat o) (show_pend p)] | None -> []) h) in
+    show_pres r ^ String.concat "" (List.map show_send e) ^ "|" ^ dash (String.concat "," (List.map show_pdisp d))
+    ^ "|" ^ dash (String.concat "," (ms @ hs)) ^ "|-"
+
 let () =
   let ic = open_in Sys.argv.(1) in
   List.iter (fun line ->
@@ -152,6 +188,14 @@ let () =
       let (so, sf) = csrun csinit ops in
       Printf.printf "S %s %s\n" id
         (String.concat " " (List.map (show_nobs false) so @ [if csleaked sf then "L1" else "L0"]))
+    | id :: "p" :: ops ->
+      let ops = parse_pops ops in
+      let (mo, mf) = prun pinit ops in
+      let ml = match mf with Some s -> [if pleaked s then "L1" else "L0"] | None -> [] in
+      Printf.printf "M %s %s\n" id (String.concat " " (List.map show_pobs mo @ ml));
+      let (so, sf) = psrun psinit ops in
+      Printf.printf "S %s %s\n" id
+        (String.concat " " (List.map show_pobs so @ [if psleaked sf then "L1" else "L0"]))
     | id :: ("r" | "y") :: ops ->
       let ops = parse_cops ops in
       let show (ret, v) = hex_of_n ret ^ "|" ^ hex_of_n v in
